@@ -1,15 +1,15 @@
 package vc
 
 import (
-	"go/types"
-	"sync"
 	"fmt"
 	"go/ast"
 	"go/parser"
+	"go/types"
 	"os"
 	"regexp"
 	"strconv"
 	"strings"
+	"sync"
 )
 
 // Clause is one labelled contract expression.
@@ -34,38 +34,39 @@ type LoopSpec struct {
 }
 
 type Contract struct {
-	Name        string // function name relative to its package, e.g. "(*Entry).Info"
-	PkgPath     string
-	External    bool // declared with "ext": assumed, body never verified
-	Trusted     bool // in-package function whose contract is assumed (listed in evidence)
-	Inline      bool
-	Requires    []*Clause
-	Ensures     []*Clause
-	Assigns     []*Clause
-	HasAssigns  bool
-	AssignsAll  bool
-	Auto        bool // "auto": requires every pointer-to-struct parameter to be non-nil
-	NoGhost     bool // with "assigns everything": the ghost variables are nevertheless unchanged
-	Effects     []*Effect
-	Panics      *Clause // "panics when e"
-	Exits       *Clause // "exits when e"
-	MayPanic    bool    // panic/exit behaviour unspecified
-	NoReturn    bool
-	Keeps       []string
-	SkipInv     []string
-	NoKeeps     []string
-	PostEffects []*Effect // ghost assignments made at each call site after the call returned (may mention result)
-	LoopAll     []*Clause // invariants of every loop of the function (auto contracts)
-	Dispatch    bool
+	Name           string // function name relative to its package, e.g. "(*Entry).Info"
+	PkgPath        string
+	External       bool // declared with "ext": assumed, body never verified
+	Trusted        bool // in-package function whose contract is assumed (listed in evidence)
+	Inline         bool
+	Requires       []*Clause
+	Ensures        []*Clause
+	Assigns        []*Clause
+	HasAssigns     bool
+	AssignsAll     bool
+	Auto           bool // "auto": requires every pointer-to-struct parameter to be non-nil
+	NoGhost        bool // with "assigns everything": the ghost variables are nevertheless unchanged
+	Effects        []*Effect
+	Panics         *Clause // "panics when e"
+	Exits          *Clause // "exits when e"
+	MayPanic       bool    // panic/exit behaviour unspecified
+	NoSafety       bool    // no safety obligations are generated for the body (paths that panic are not compared)
+	NoReturn       bool
+	Keeps          []string
+	SkipInv        []string
+	NoKeeps        []string
+	PostEffects    []*Effect // ghost assignments made at each call site after the call returned (may mention result)
+	LoopAll        []*Clause // invariants of every loop of the function (auto contracts)
+	Dispatch       bool
 	DispatchIfaces []string
-	IgnoreDefer bool
-	Loops       map[int]*LoopSpec
-	Props       []string
-	Asserts     []*AtClause
-	Equiv       string
-	Fd          string // "entry" => fd == 0
-	File        string
-	Line        int
+	IgnoreDefer    bool
+	Loops          map[int]*LoopSpec
+	Props          []string
+	Asserts        []*AtClause
+	Equiv          string
+	Fd             string // "entry" => fd == 0
+	File           string
+	Line           int
 }
 
 // AtClause: assertion attached to a program point: "at panic", "at exit", "at call <callee>".
@@ -138,9 +139,18 @@ func rtypedMapLeaf(leaf string) bool {
 
 // ParseContractFile reads //@ clauses from a Go (or .lvc) file.
 func ParseContractFile(path, pkgPath string) ([]*Contract, error) {
-	data, err := os.ReadFile(path)
-	if err != nil {
-		return nil, err
+	return ParseContractFileOverlay(path, pkgPath, nil)
+}
+
+// ParseContractFileOverlay reads a contract file from the overlay (generated files) or from disk.
+func ParseContractFileOverlay(path, pkgPath string, overlay map[string][]byte) ([]*Contract, error) {
+	data, ok := overlay[path]
+	if !ok {
+		var err error
+		data, err = os.ReadFile(path)
+		if err != nil {
+			return nil, err
+		}
 	}
 	// reference types that typed quantifiers range over: their objects carry a type mark (rtype)
 	for _, m := range typedQuantRe.FindAllStringSubmatch(string(data), -1) {
@@ -281,6 +291,11 @@ func ParseContractFile(path, pkgPath string) ([]*Contract, error) {
 			cur.NoGhost = true
 		case "maypanic":
 			cur.MayPanic = true
+		case "nosafety":
+			// run-time panics are outside this contract (lockstep products: panic freedom is the business of
+			// the real functions' own contracts); a panicking path is simply not compared
+			cur.MayPanic = true
+			cur.NoSafety = true
 		case "panics", "exits":
 			w, r2 := splitWord(strings.TrimSpace(rest))
 			lbl := ""
